@@ -360,32 +360,25 @@ def check(ctx, run):
     for need in ("registry_->setGroupFilters(arguments_->getGroupFilters())", "registry_->setNameFilters(arguments_->getNameFilters())",
                  "UtestShell::setRethrowExceptions(arguments_->isRethrowingExceptions())"):
         run.ob("R2", "runner: %s" % need, init.site, allc.count(need) == 1, witness=[c for c in allc if need.split("(")[0] in c])
+    from .shared import runner_fold
     rt = prog.fn("CommandLineTestRunner::runAllTests")
     run.analysed(rt)
-    loops = loop_blocks(rt)
-    def in_loop(c):
-        w = rt.where_enclosing(c)
-        return w is not None and w[0] in loops
-    calls = {render(rt, c): c for c in rt.calls()}
-    for nm, want_loop in (("registry_->reverseTests()", False), ("registry_->shuffleTests(arguments_->getShuffleSeed())", True), ("registry_->runAllTests(tr)", True)):
-        c = calls.get(nm)
-        ok = c is not None and in_loop(c) == want_loop
-        run.ob("R2", "runner: %s %s the repetition loop" % (nm, "inside" if want_loop else "once, before"), rt.site, ok,
-               what="" if ok else ("call missing" if c is None else "call is %s the repetition loop" % ("inside" if in_loop(c) else "outside")))
-    for p in enumerate_paths(rt):
-        val = p.val()
-        names = [render(rt, c) for c in path_calls(prog, rt, p)]
+    try:
         for g, lister in (("isListingTestGroupNames", "listTestGroupNames"), ("isListingTestGroupAndCaseNames", "listTestGroupAndCaseNames"), ("isListingTestLocations", "listTestLocations")):
-            if val.get("arguments_->%s()" % g) is True:
-                ok = ("registry_->%s(tr)" % lister) in names and "registry_->runAllTests(tr)" not in names and p.ret is not None and const_value(rt, rt.node(p.ret.get("value"))) == 0
-                run.ob("R2", "runner: %s lists with %s, runs nothing, returns 0" % (g, lister), rt.site, ok, witness=p.describe(rt))
-        rev = val.get("arguments_->isReversing()")
-        if rev is not None and "registry_->runAllTests(tr)" in names:
-            run.ob("R2", "runner: reverse iff isReversing() [%s]" % short(p.describe(rt), 80), rt.site, (names.count("registry_->reverseTests()") == 1) == rev)
-        sh = val.get("arguments_->isShuffling()")
-        if sh is not None and "registry_->runAllTests(tr)" in names:
-            k = names.count("registry_->shuffleTests(arguments_->getShuffleSeed())")
-            run.ob("R2", "runner: shuffle before each run iff isShuffling() [%s]" % short(p.describe(rt), 80), rt.site, (k >= 1) == sh)
+            r, events = runner_fold(prog, [(0, 0), (0, 0)], {g: 1, "isReversing": 1, "isShuffling": 1})
+            kinds = [e[0] for e in events if e[0] != "new-result"]
+            ok = kinds == [lister] and r == 0
+            run.ob("R2", "runner folded: %s lists with %s, runs nothing, returns 0" % (g, lister), rt.site, ok, witness={"events": kinds, "returns": r})
+        for rev, sh, nrep in itertools.product((0, 1), (0, 1), (1, 3)):
+            r, events = runner_fold(prog, [(0, 0)] * nrep, {"isReversing": rev, "isShuffling": sh}, seed=4711)
+            kinds = [e for e in events if e[0] != "new-result"]
+            want = ([("reverseTests",)] if rev else []) + ([("shuffleTests", 4711)] if sh else []) + [("runAllTests",)]
+            want = want[:1 if rev else 0] + (want[1 if rev else 0:]) * nrep
+            ok = kinds == want
+            run.ob("R2", "runner folded [reverse=%d shuffle=%d repetitions=%d]: reverse once before the repetitions, shuffle with the given seed before each run" % (rev, sh, nrep), rt.site, ok,
+                   witness=[list(e) for e in kinds], what="" if ok else "runner does %s, expected %s" % (kinds, want))
+    except Unknown as u:
+        run.broke("C12.R2: the runner cannot be folded: %s" % u)
     pa = prog.fn("CommandLineTestRunner::parseArguments")
     run.analysed(pa)
     for p in enumerate_paths(pa):
